@@ -557,7 +557,8 @@ def main():
     if mf is not None:
         s = src_of(mf)
         facts['makeField'] = {
-            'outOrder': ['out_name', 'rename', 'class'] if s.index('self.out_name is not None') < s.index('elif self.rename is not None') else None,
+            # `if self.out_name is not None … elif self.rename is not None … else <class style>`: the order of the branches
+            'outOrder': ['out_name', 'rename', 'class'] if 0 <= s.find('if self.out_name is not None') < s.find('elif self.rename is not None') else None,
             'aliasesIncludeRenamed': 'renamed = tuple((rename_field(name, style) for style in in_rename)) if in_rename is not None else ()' in s
                                      and 'dict.fromkeys((name, *renamed, *self.aliases))' in s,
             'aliasesOld': '(name, *(alias for alias in self.aliases if alias != name))' in s,
@@ -759,4 +760,12 @@ def emit_lean(F):
 
 
 if __name__ == '__main__':
-    sys.exit(main())
+    try:
+        sys.exit(main())
+    except SystemExit:
+        raise
+    except Exception as e:  # noqa -- the source no longer has the shape the translator reads: report, let the check search
+        import traceback
+        print(json.dumps({'facts_hash': None, 'changed': False, 'tie_broken': ['translator could not read the source: ' + ''.join(traceback.format_exception_only(type(e), e)).strip()],
+                          'crashed': True}))
+        sys.exit(0)
